@@ -105,6 +105,32 @@ class Gen:
         members = [('content.xml', c, 'text/xml'), ('styles.xml', s, 'text/xml'), ('meta.xml', P.meta_xml(), 'text/xml'), ('settings.xml', P.settings_xml(), 'text/xml')]
         return P.make_package(members), c, s
 
+class Directed:
+    """a hand-written package; .directed names it in the match of every violation it gives"""
+    def __init__(self, name, body, cauto, sauto, master, common=''):
+        self.directed = name; self.desc = {'clash': [], 'sites': [], 'directed': name}
+        self.parts = (body, cauto, common, sauto, master)
+    def package(self):
+        body, cauto, common, sauto, master = self.parts
+        c = P.content_xml(body, cauto); s = P.styles_xml(common, sauto, master)
+        return P.make_package([('content.xml', c, 'text/xml'), ('styles.xml', s, 'text/xml'), ('meta.xml', P.meta_xml(), 'text/xml'), ('settings.xml', P.settings_xml(), 'text/xml')]), c, s
+
+def directed_packages():
+    t1 = '<style:style style:name="T1" style:family="text" style:display-name="%s"><style:text-properties fo:color="%s"/></style:style>'
+    lst = '<text:list text:style-name="L1"><text:list-item><text:p xml:id="%s"><text:span xml:id="%s" text:style-name="T1">x</text:span></text:p></text:list-item></text:list>'
+    # a reference inside the automatic styles of styles.xml to a style of that part that stands BEHIND it (the numbers of a list
+    # style set in a character style): the loader renames that style when it meets it - after the reference was read
+    fwd = Directed('forward-reference-in-styles-part', lst % ('b1', 'b2'), t1 % ('c-T1', '#0000ff'),
+                   '<style:page-layout style:name="pm1"/><text:list-style style:name="L1"><text:list-level-style-number xml:id="lvl" text:level="1" text:style-name="T1" style:num-format="1"/></text:list-style>'
+                   + t1 % ('s-T1', '#ff0000'),
+                   '<style:master-page style:name="Standard" style:page-layout-name="pm1"><style:header>%s</style:header></style:master-page>' % (lst % ('h1', 'h2')))
+    # the same with the definition in front: every reference follows
+    bwd = Directed('backward-reference-in-styles-part', lst % ('b1', 'b2'), t1 % ('c-T1', '#0000ff'),
+                   '<style:page-layout style:name="pm1"/>' + t1 % ('s-T1', '#ff0000')
+                   + '<text:list-style style:name="L1"><text:list-level-style-number xml:id="lvl" text:level="1" text:style-name="T1" style:num-format="1"/></text:list-style>',
+                   '<style:master-page style:name="Standard" style:page-layout-name="pm1"><style:header>%s</style:header></style:master-page>' % (lst % ('h1', 'h2')))
+    return [fwd, bwd]
+
 def gen_package(rng, force_site=None):
     g = Gen(rng)
     pool = ['P1', 'P2', 'T1', 'gr1', 'dp1', 'pr1', 'Table1', 'co1', 'ro1', 'ce1', 'A', 'B1']
@@ -288,7 +314,7 @@ def run_case(ctx, d, twin, schema_refs, g, label):
                 got = resolve(e, names[i]) if i < len(names) else None
                 if got != [want]:
                     ctx.violation('reference-resolves-elsewhere', dict(case, stage=stage, site=m, attribute=pn(attr), value=val),
-                                  {'resolves_to': got}, {'resolves_to': [want]}, {'attribute': pn(attr), 'stage': stage})
+                                  {'resolves_to': got}, {'resolves_to': [want]}, {'attribute': pn(attr), 'stage': stage, 'directed': getattr(g, 'directed', None), 'site': m})
             if m not in site_elems and stage == 'loaded':
                 ctx.violation('site-lost', dict(case, stage=stage, site=m), None, 'the element is in the loaded document', {})
         for (m, attr), v in src_other.items():
@@ -374,6 +400,8 @@ def run(ctx):
                         (5, ('table-cell', 'table:table-cell', 'table:style-name')), (6, ('drawing-page', 'style:master-page', 'draw:style-name'))):
         g = gen_package(random.Random(seed), force)
         run_case(ctx, d, twin, schema_refs, g, 'corpus-%d' % seed)
+    for g in directed_packages():
+        run_case(ctx, d, twin, schema_refs, g, 'directed: ' + g.directed)
     # every schema reference attribute that can name a style:style, in the body and in a master page
     sweep = 0
     for attr in sorted(schema_refs):
